@@ -60,6 +60,8 @@ MODEL_MUTANTS = [
     ("drop_A2", {"AssumeA2 = TRUE": "AssumeA2 = FALSE"}, "Monotone"),
     ("drop_A3", {"AssumeA3 = TRUE": "AssumeA3 = FALSE"}, "Monotone"),
 ]
+# reachability witnesses: "invariants" that TLC must violate (non-vacuity of the model's properties)
+REACH = ["NeverFtol", "NeverPtol", "NeverMaxIters", "NeverRejected", "NeverAcceptedAtZeroResidual", "NeverSecondRunOnSharedStrategy"]
 
 
 def required_cells(tier):
@@ -110,6 +112,9 @@ def run_models(oc, tier, workdir):
                 raise V.ToolFailure(f"Minimize.cfg lacks '{a}'")
             txt = txt.replace(a, b)
         jobs.append((f"mutant {name}", txt, 1, 600, prop))
+    for inv in REACH:
+        txt = shared.replace("INVARIANT TypeOK", f"INVARIANT TypeOK\nINVARIANT {inv}")
+        jobs.append((f"reachability {inv}", txt, 1, 600, inv))
     info = []
 
     def one(j):
@@ -134,7 +139,8 @@ def run_models(oc, tier, workdir):
             else:
                 hit = re.search(r"(Invariant|property) " + prop + " is violated", out) is not None
                 info.append({"model": "Minimize", "config": name, "distinct_states": r["distinct"],
-                             "result": f"rejected by TLC ({prop} violated) as required" if hit else "NOT rejected"})
+                             "result": (f"witness found by TLC ({prop})" if name.startswith("reachability") else
+                                        f"rejected by TLC ({prop} violated) as required") if hit else "NOT rejected"})
                 if not hit:
                     raise V.ToolFailure(f"model {name} was not rejected through {prop}: the model property is vacuous\n{out[-1500:]}")
     return info
@@ -259,7 +265,10 @@ def check(prop, tier, seed, replay=None):
             rdir = os.path.join(V.VERIF, "replays")
             for f in (os.listdir(rdir) if os.path.isdir(rdir) else []):
                 if re.fullmatch(prop + r"-\d+\.json", f):
-                    os.remove(os.path.join(rdir, f))
+                    try:
+                        os.remove(os.path.join(rdir, f))
+                    except OSError:
+                        pass
         if replay:
             rp = json.load(open(replay))
             if rp.get("group") is None:
@@ -298,6 +307,7 @@ def check(prop, tier, seed, replay=None):
             if missing:
                 # the code under test behaved so differently that planned cells stayed empty; the violations say why
                 oc.notes.append(f"coverage cells not reached: {missing[:12]}")
+                V.log(f"note: coverage cells not reached: {missing[:12]}")
         sig = {}
         for b, _ in oc.violations:
             k = f"{b.get('clause')}|{b.get('stratum')}|fam={b.get('fam')}|strategy={'shared' if b.get('shared') else 'fresh'}"
